@@ -41,7 +41,9 @@ func fatal(msg string) {
 }
 
 func mLock(p *value, what string) {
-	S.yield(what)
+	if S.yieldAtLocks {
+		S.yield(what)
+	}
 	l := lockOf(p)
 	S.block(func() bool { return !l.writer && l.readers == 0 }, what)
 	l.writer = true
@@ -59,11 +61,15 @@ func mUnlock(p *value, what string) {
 	l.vc = g.vc.copy()
 	g.vc[g.id]++
 	l.writer = false
-	S.yield(what)
+	if S.yieldAtLocks {
+		S.yield(what)
+	}
 }
 
 func mRLock(p *value) {
-	S.yield("RLock")
+	if S.yieldAtLocks {
+		S.yield("RLock")
+	}
 	l := lockOf(p)
 	S.block(func() bool { return !l.writer }, "RLock")
 	l.readers++
@@ -79,11 +85,15 @@ func mRUnlock(p *value) {
 	l.rvc.join(g.vc)
 	g.vc[g.id]++
 	l.readers--
-	S.yield("RUnlock")
+	if S.yieldAtLocks {
+		S.yield("RUnlock")
+	}
 }
 
 func atomicStep(site string) {
-	S.yield("atomic:" + site)
+	if S.yieldAtLocks {
+		S.yield("atomic:" + site)
+	}
 }
 
 func init() {
